@@ -643,3 +643,44 @@ func VerifScan(lines []string, query string, sort bool, tac bool, partitions int
 	}
 	return cancelled, true, out
 }
+
+// VerifChunkFrozen pushes items 0..pushes-1, takes a snapshot each time the push count reaches an
+// entry of snapAt, and reports every snapshot twice: as read when it was taken, and as read again
+// after all later pushes and snapshots.
+func VerifChunkFrozen(pushes int, snapAt []int, tail int) (atTime [][][]int32, atEnd [][][]int32) {
+	var next int32
+	cl := NewChunkList(NewChunkCache(), func(item *Item, data []byte) bool {
+		item.text = util.ToChars(data)
+		item.text.Index = next
+		next++
+		return true
+	})
+	read := func(snap []*Chunk) [][]int32 {
+		row := [][]int32{}
+		for _, c := range snap {
+			is := []int32{}
+			for k := 0; k < c.count; k++ {
+				is = append(is, c.items[k].Index())
+			}
+			row = append(row, is)
+		}
+		return row
+	}
+	kept := [][]*Chunk{}
+	si := 0
+	for n := 0; n <= pushes; n++ {
+		for si < len(snapAt) && snapAt[si] == n {
+			snap, _, _ := cl.Snapshot(tail)
+			kept = append(kept, snap)
+			atTime = append(atTime, read(snap))
+			si++
+		}
+		if n < pushes {
+			cl.Push([]byte("x"))
+		}
+	}
+	for _, snap := range kept {
+		atEnd = append(atEnd, read(snap))
+	}
+	return
+}
